@@ -143,7 +143,11 @@ func Run(o Opts) (*Result, error) {
 			}
 		}
 	}
-	args := []string{"-XX:+UseParallelGC", fmt.Sprintf("-Xmx%dm", o.HeapMB)}
+	// TLC creates an (empty) tlc-<n> directory under java.io.tmpdir on every start: keep it
+	// inside the run directory, which is removed, instead of littering /tmp
+	jtmp := filepath.Join(runDir, "jtmp")
+	_ = os.MkdirAll(jtmp, 0o755)
+	args := []string{"-XX:+UseParallelGC", fmt.Sprintf("-Xmx%dm", o.HeapMB), "-Djava.io.tmpdir=" + jtmp}
 	if o.StackMB > 0 {
 		args = append(args, fmt.Sprintf("-Xss%dm", o.StackMB))
 	}
